@@ -193,7 +193,7 @@ pub fn discard_mode_present_iff_guard_first_b() {
 }
 
 
-// @check C13 thorough timeout=3600 mem=40
+// @disabled-check (CBMC needs more than 20 GB for this one: not registered, see DESIGN.md C13) C13 thorough timeout=3600 mem=40
 // @encodes metrique::slot::{Slot::open(Wait), SlotGuard::drop}, keep_alive::{Parent, DropAll} (force-flush guard built as AppendAndCloseOnDrop::force_flush_guard builds it)
 // @bounds wait-mode slot + a force-flush guard; parent dropped, then both orders (two harnesses) of {force guard, slot guard}
 // @oracle force guard first => entry appended at once without the slot value (the documented exception); slot guard first => appended with the value; exactly once either way
@@ -226,7 +226,7 @@ pub fn force_flush_releases_waiting_entry_a() {
     }
 }
 
-// @check C13 thorough timeout=3600 mem=40
+// @disabled-check (CBMC needs more than 20 GB for this one: not registered, see DESIGN.md C13) C13 thorough timeout=3600 mem=40
 // @encodes metrique::slot::{Slot::open(Wait), SlotGuard::drop}, keep_alive::{Parent, DropAll} (force-flush guard built as AppendAndCloseOnDrop::force_flush_guard builds it)
 // @bounds wait-mode slot + a force-flush guard; parent dropped, then both orders (two harnesses) of {force guard, slot guard}
 // @oracle force guard first => entry appended at once without the slot value (the documented exception); slot guard first => appended with the value; exactly once either way
